@@ -7,6 +7,10 @@ MESON_VERIF_MONITORS is a comma separated list of monitor specs applied at inter
 import os
 
 if os.environ.get('MESON_VERIF') == '1':
+    # Only the process that was started with the guard set is perturbed: children (scripts that the PROJECT runs with
+    # run_command()/custom targets) must see an ordinary environment, or their own unsorted directory listings would be
+    # blamed on meson.
+    os.environ.pop('MESON_VERIF', None)
     for _spec in filter(None, os.environ.get('MESON_VERIF_MONITORS', '').split(',')):
         _name, _, _arg = _spec.partition(':')
         if _name == 'readdir_shuffle':
